@@ -149,6 +149,13 @@ class Stage2Intrinsics(NumIntrinsics):
                 if not eng.oblige(st, eq, "ub", "stage-1 kernel entered with a %s carry that is not the one the previous kernel call left "
                                   "(or the documented initial value on the first call): the scan of the rest of the message is no longer REF-SCAN" % what, pos_):
                     return 0
+            # mode contract: what the layout describes is REF-SCAN of the message in the mode this parse runs in (newlines are
+            # structural in ndjson mode only); a kernel call that passes another flag scans that part of the message differently
+            wnd = eng.deref(st, PtrV(eng.global_obj(st, H + "verifWantNdjson"), ()), pos_)
+            eqn = (ndjson == wnd) if (is_conc(ndjson) and is_conc(wnd)) else (bv(ndjson, 64) == bv(wnd, 64))
+            if not eng.oblige(st, eqn, "ub", "stage-1 kernel called with an ndjson flag that is not the mode of this parse: newline delimiters in "
+                              "that part of the message are (not) reported as structurals, the index stream is no longer REF-SCAN of the message", pos_):
+                return 0
             processed = 0
             arr = list(eng.deref(st, p_indexes, pos_))
             carried = eng.need_int(st, eng.deref(st, p_carried, pos_, 64), pos_, "carried")
